@@ -5,6 +5,7 @@ package c05
 import (
 	"bytes"
 	"crypto/cipher"
+	crand "crypto/rand"
 	"crypto/rsa"
 	"crypto/sha256"
 	"crypto/x509"
@@ -554,8 +555,11 @@ func (a appending) Wrap(fileKey []byte) ([]*age.Stanza, error) {
 	return a.r.Wrap(fileKey[:len(fileKey):len(fileKey)])
 }
 
-func loadRSA(w *world.World) {
-	b, err := os.ReadFile(filepath.Join(vk.VerifRoot(), "corpus", "rsa_r1.pem"))
+func loadRSA(w *world.World) { loadRSAFile(w, "rsa_r1.pem") }
+
+// loadRSAFile installs a frozen RSA key of the corpus directory as key r1 of the world.
+func loadRSAFile(w *world.World, name string) {
+	b, err := os.ReadFile(filepath.Join(vk.VerifRoot(), "corpus", name))
 	if err != nil {
 		vk.Infra("corpus RSA key: %v", err)
 	}
@@ -814,6 +818,42 @@ func fresh(run *vk.Run, t *Terms, w *world.World) {
 		}
 	}
 	run.Add("reference_encoder_files", n)
+	// the same with a 4096-bit RSA key as r1: its stanza body is 512 bytes, eleven body lines (a frozen key: generating
+	// one costs seconds). Evaluator-made files must decrypt, and what the library writes must decrypt and be byte-exact.
+	w4 := world.New(run.Seed + 4096)
+	for _, k := range []string{"x1", "x2", "e1", "e2", "s1"} {
+		w4.Identity(k)
+	}
+	loadRSAFile(w4, "rsa_r1_4096.pem")
+	m := 0
+	for i := range t.Cases {
+		c := &t.Cases[i]
+		has := false
+		for _, r := range c.Rs {
+			has = has || r.ID == "r1"
+		}
+		if !has {
+			continue
+		}
+		for li, ln := range []int{0, 65537} {
+			armored := (i+li)%2 == 0
+			file, pt, err := makeFile(t, w4, c, ln, armored, run.Seed*2000+int64(i*10+li))
+			if err != nil {
+				vk.Infra("reference encoder (RSA 4096): %v", err)
+			}
+			for _, r := range c.Rs {
+				got, err := libDecrypt(w4, file, armored, r.ID)
+				run.Eval(1)
+				if err != nil || !bytes.Equal(got, pt) {
+					run.Violation(fmt.Sprintf("C05:reference-file-does-not-decrypt:rsa4096:rs=%s/armor=%v", rsSig(c.Rs), armored), fmt.Sprintf("a file written by the reference encoder for a 4096-bit ssh-rsa key (recipients %s, %d bytes) does not decrypt with %s: %v", rsSig(c.Rs), ln, r.ID, err), nil)
+				}
+			}
+			checkEncrypt(run, t, w4, c, ln, armored, pt, "C05", map[string]string{})
+			run.Distinct(fmt.Sprintf("fresh4096:%s:%d", rsSig(c.Rs), ln))
+			m++
+		}
+	}
+	run.Add("reference_encoder_files_rsa4096", m)
 }
 
 // external anchors: the repository's example file and the CCTV vectors that expect success.
@@ -873,12 +913,18 @@ func RunC06(tier string) {
 	nh := 0
 	for i := range t.Cases {
 		c := &t.Cases[i]
-		if !run.Thorough() && len(c.Rs) > 1 && (i+int(run.Seed))%3 != 0 {
-			continue
+		sameKind := true
+		for _, r := range c.Rs {
+			if r.K != c.Rs[0].K {
+				sameKind = false
+			}
+		}
+		if !run.Thorough() && len(c.Rs) > 1 && !sameKind && (i+int(run.Seed))%3 != 0 {
+			continue // lists of one kind (two native recipients, the same recipient twice, ...) always run
 		}
 		// one history: the same recipient objects encrypt 2-4 files
 		recips := buildRecipients(w, c.Rs)
-		if i%4 == 1 && c.Rs[0].K != "S" {
+		if i%4 == 1 && c.Rs[0].K != "S" && (len(c.Rs) == 1 || !sameKind) {
 			recips[0] = appending{recips[0]} // same draws, same file; the recipient scribbles behind its argument
 		}
 		seen := map[string]string{}
@@ -896,6 +942,7 @@ func RunC06(tier string) {
 	run.Distinct("carry:258chunks")
 	run.Add("histories", nh)
 	run.Sample(map[string]interface{}{"recipients": rsSig(t.Cases[len(t.Cases)/3].Rs), "plan": t.Cases[len(t.Cases)/3].Plan})
+	randFaultProvenance(run, t, w)
 	nonceReuseAfterWriteError(run, rng)
 	closedWriterPlans(run, rng)
 	repoSuiteTrace(run)
@@ -904,6 +951,65 @@ func RunC06(tier string) {
 	}
 	mathRandGuard(run)
 	run.Finish()
+}
+
+// faultTape passes the system CSPRNG through, records what it delivered, and fails exactly once, at its n-th read.
+type faultTape struct {
+	inner io.Reader
+	n     int
+	calls int
+	draws [][]byte
+	Fired bool
+}
+
+func (f *faultTape) Read(p []byte) (int, error) {
+	f.calls++
+	if f.calls == f.n {
+		f.Fired = true
+		return 0, errors.New("injected CSPRNG failure")
+	}
+	n, err := f.inner.Read(p)
+	f.draws = append(f.draws, append([]byte{}, p[:n]...))
+	return n, err
+}
+
+// randFaultProvenance: the CSPRNG fails once, at each draw of an Encrypt call in turn. Either Encrypt reports the
+// failure, or - if it carries on - every secret of the file it writes still comes from what the CSPRNG did deliver
+// (a dropped error leaves a constant, e.g. all-zero, ephemeral secret or nonce behind).
+func randFaultProvenance(run *vk.Run, t *Terms, w *world.World) {
+	saved := crand.Reader
+	defer func() { crand.Reader = saved }()
+	for _, rs := range [][]rcp{{{K: "X", ID: "x1"}}, {{K: "X", ID: "x1"}, {K: "X", ID: "x2"}}, {{K: "E", ID: "e1"}}, {{K: "E", ID: "e1"}, {K: "X", ID: "x1"}}} {
+		c := findCase(t, rs)
+		if c == nil {
+			continue
+		}
+		for k := 1; k <= len(c.Plan)+1; k++ {
+			ft := &faultTape{inner: saved, n: k}
+			var o Observation
+			var buf bytes.Buffer
+			var wc io.WriteCloser
+			var pan interface{}
+			func() {
+				defer func() { pan = recover() }()
+				crand.Reader = ft
+				defer func() { crand.Reader = saved }()
+				wc, o.Err = age.Encrypt(&buf, buildRecipients(w, rs)...)
+			}()
+			run.Eval(1)
+			sig := fmt.Sprintf("randfault:%s/draw%d", rsSig(rs), k)
+			run.Distinct(sig)
+			if pan != nil || !ft.Fired || o.Err != nil {
+				continue // reported (or this toolchain aborts on CSPRNG failure, or fewer draws): fine
+			}
+			wc.Write([]byte("x"))
+			wc.Close()
+			o.Out, o.Draws = buf.Bytes(), ft.draws
+			if role, why := provenance(w, c, o, o.Out); role != "" {
+				run.Violation("C06:secret-not-from-csprng:"+role+":"+sig, fmt.Sprintf("recipients [%s], CSPRNG failing once at draw %d: Encrypt reported success; %s", rsSig(rs), k, why), map[string]interface{}{"check": "C06.randfault", "rs": rs, "draw": k})
+			}
+		}
+	}
 }
 
 // closedWriterPlans: histories of the writer machine that go on calling a writer after Close (StreamMC, mode
